@@ -8,9 +8,28 @@ from props.c01 import poly_obs, lookalike
 
 RULE = ("validated plain models (depth 0-4, every connective, explicit signs, sharing, boolean and small integer leaves); completeness: every "
         "satisfying in-bounds leaf assignment (exhaustive <= cap, else random) extends to a point of the asserted polyhedron; soundness (solver-safe "
-        "models only): ALL integer points of the column box (auxiliary columns free) are enumerated when there are <= cap of them and every point "
+        "models only; a model written with positive connectives and Not / Imply / XNor over such arguments, negative connectives only over atoms, has to BE solver safe): ALL integer points of the column box (auxiliary columns free) are enumerated when there are <= cap of them and every point "
         "satisfying all rows must make the model true on its leaf part; the negation of every solver-safe model must be solver safe again and is "
         "enumerated the same way; non-trivial = polyhedron has >= 2 auxiliary columns; distinct by canonical text")
+
+ATOM = ("str", "var")
+def expects_safe(ast):
+    """the constructor expression only uses connectives that are documented to keep solver-safe form: positively signed
+    ones (All, Any, AtLeast with positive sign, which is the default for value > 0) and the ones built from negate() (Not, Imply, XNor) over
+    arguments of the same kind; negatively signed connectives (AtMost, Xor, AtLeast with negative sign) only over atoms"""
+    k = ast["k"]
+    if k in ATOM:
+        return True
+    ch = ast.get("ch", [])
+    if k in ("AtMost", "Xor") or (k == "AtLeast" and (ast.get("s") == -1 or (ast.get("s") is None and ast["v"] <= 0))):
+        return all(c["k"] in ATOM for c in ch)
+    return all(expects_safe(c) for c in ch)
+
+def has_neg_built_over_compound(ast):
+    if ast["k"] in ATOM:
+        return False
+    ch = ast.get("ch", [])
+    return (ast["k"] in ("Not", "Imply", "XNor") and any(c["k"] not in ATOM for c in ch)) or any(has_neg_built_over_compound(c) for c in ch)
 
 def sound_model(res, ast, m, cap):
     """enumerate the column box of the asserted polyhedron"""
@@ -63,6 +82,17 @@ def run(res, tier, seed):
         res.count("solver_safe" if safe else "not_solver_safe")
         if naux >= 2:
             res.nt(canon(m)); res.count("aux_columns>=2")
+        if expects_safe(ast):
+            res.count("constructors_keep_safe_form")
+            if has_neg_built_over_compound(ast):
+                res.count("negate_built_connective_over_compound")
+            if not safe:
+                bad = sound_model(res, ast, m, 20 * cap)
+                if bad and bad != "skipped":
+                    res.violation("oracle", f"{bad['problem']} on {m!r} (built by connectives that keep solver-safe form: {json.dumps(ast_json(ast))[:300]})", bad)
+                else:
+                    res.violation("oracle", f"connectives that keep solver-safe form (positive ones and Not / Imply / XNor, which push negation inwards) over solver-safe arguments built a model that is not solver safe: {canon(m)}",
+                                  {"op": "constructor-safe", "model": ast_json(ast), "problem": "constructors did not re-establish solver-safe form"})
         bad = complete_model(res, ast, m, rng, 8 if tier == "quick" else 25, 0 if tier == "quick" else 400)
         if bad:
             res.violation("oracle", f"{bad['problem']} on {m!r}", bad)
@@ -147,6 +177,9 @@ def replay(payload):
         neg = m.negate()
         print("model", m, "negation", canon(neg), "solver safe:", solver_safe(neg))
         return 0 if solver_safe(neg) else 1
+    if r.get("op") == "constructor-safe":
+        print("model", canon(m), "solver safe:", solver_safe(m))
+        return 0 if solver_safe(m) else 1
     if r.get("op") == "sound":
         x = [r["point"][c] for c, _ in cols]
         sat = all(row[0] <= sum(a * b_ for a, b_ in zip(row[1:], x)) for row in rows)
